@@ -16,7 +16,7 @@ class P(MetProp):
     id = "C12"
     rule = ("two vectors l = sum by (L1) (count_over_time({side=\"l\"}..)) and r = sum by (L2) (count_over_time({side=\"r\"}..)) over records whose label sets overlap, are disjoint "
             "or empty on either side and change from step to step; all 12 arithmetic/comparison operators (with and without `bool`) and and/or/unless between them; vector-scalar "
-            "with the scalar on either side, scalars {0, 2, 0.5, 3, -2, -0.5}; vector(c) against aggregations with empty and non-empty label sets (incl. `... or vector(0)`); offset "
+            "with the scalar on either side, scalars {0, 2, 0.5, 3, -2, -0.5} and vector(x) against scalars with inexact reciprocals {10, 3, 7, 0.1, -10, 0.3, 0.001}; vector(c) against aggregations with empty and non-empty label sets (incl. `... or vector(0)`); offset "
             "operands; instant and multi-step range evaluation. Demanded on the OBSERVED results at every step: the result is the operator applied pointwise to the observed operand "
             "vectors, one series per label set present on both sides (left labels), x/0 and x%0 NaN, comparison 1 exactly where it holds; and/or/unless are intersection / union "
             "(left wins) / difference by label set; everything equals the faithful model.")
@@ -56,7 +56,7 @@ class P(MetProp):
             else:
                 evals.append({"q": b64e(q), "qcoq": e["coq"], "start": start, "end": end, "step": step})
             return len(evals) - 1
-        kind = rng.choice(["vv", "vv", "vv", "lit", "lit", "lit", "litbool", "set", "set", "set", "vector", "vector"])
+        kind = rng.choice(["vv", "vv", "vv", "lit", "lit", "lit", "litbool", "set", "set", "set", "vector", "vector", "vlit", "vlit"])
         by = rng.choice([["app"], ["app"], [], ["nosuch"]]) if not dense else ["app"]
         L = side("l", by, rng.choice([0, 0, 0, S]))
         R = side("r", by if rng.random() < 0.8 else ["app"])
@@ -82,6 +82,21 @@ class P(MetProp):
             lit = m.mlit(c)
             e = m.mbin(op, lit, L, rb) if left else m.mbin(op, L, lit, rb)
             rels.append("MRelLit %d %d %s %s %s %s" % (il, add(e), BOP[op], "true" if rb else "false", cfloat(c), "true" if left else "false"))
+        elif kind == "vlit":
+            # a scalar whose reciprocal is inexact against dividends where x/s and x*(1/s) round differently
+            x = rng.choice([3, 6, 7, 12, 5, 1, 49])
+            c = rng.choice([10, 3, 7, 0.1, -10, 0.3, 1e-3])
+            op = rng.choice(["/", "/", "/", "%", "*", "-"])
+            left = rng.random() < 0.3
+            if op == "/" and rng.random() < 0.7:
+                # pairs for which x/s and x*(1/s) differ in the last bit
+                x, c = rng.choice([(3, 10), (3, -10), (6, 10), (7, 10), (7, 3), (7, 6), (12, 10), (5, 3), (5, 7), (5, 49), (49, 49), (9, 7), (13, 7)])
+                left = False
+            V = m.mvector(x)
+            iv = add(V)
+            lit = m.mlit(c)
+            e = m.mbin(op, lit, V, False) if left else m.mbin(op, V, lit, False)
+            rels.append("MRelLit %d %d %s false %s %s" % (iv, add(e), BOP[op], cfloat(c), "true" if left else "false"))
         elif kind == "set":
             op = rng.choice(SETOPS + ["or"])
             e = m.mbin(op, L, R)
